@@ -64,13 +64,28 @@ def kernels(tier, seed):
         oc, on = OPS[i % 4]
         tc, tn = TAGS[(i + seed) % 3]
         ks.append(("overflow_integer<%s=,%s>(%s,%s)" % (on, tn, ln, rn), "c06::compound<c06::%s,c06::%s,%s,%s>" % (oc, tc, lc, rc)))
+    # C07 only: % and >> (not range-checked by the tags) must be total
+    n = 0
+    for oc, on in (("Mod", "%"), ("Shr", ">>")):
+        for li, (lc, ln) in enumerate(INTS):
+            for ri, (rc, rn) in enumerate(INTS):
+                n += 1
+                same = li == ri or (li // 2 == ri // 2)
+                if not (thorough or same or (n + seed) % 5 == 0):
+                    continue
+                tc, tn = TAGS[(n + seed) % 3]
+                ks.append(("operate<%s,%s>(%s,%s)" % (on, tn, ln, rn), "c06::total<c06::%s,c06::%s,%s,%s,c06::E_OPERATE>" % (oc, tc, lc, rc)))
+                if thorough or (n + seed) % 2 == 0:
+                    ks.append(("overflow_integer<%s,%s>(%s,%s)" % (on, tn, ln, rn), "c06::total<c06::%s,c06::%s,%s,%s,c06::E_WRAPPER>" % (oc, tc, lc, rc)))
     return [(d, '%s("%s");' % (c, d)) for d, c in ks]
 
 
 def configs(prop, tier):
+    # both properties additionally run the as-shipped flags (-O2 -DNDEBUG): there unreachable() is __builtin_unreachable (observed
+    # through -fsanitize=unreachable) and the trapping tag must still reach abort()
     if tier == "quick":
-        return ["g-san", "c-san"]
-    return ["g-san", "c-san", "g-port", "c-intr"]
+        return ["g-san", "c-san", "g-rel"]
+    return ["g-san", "c-san", "g-port", "c-intr", "g-rel", "c-rel"]
 
 
 def run_prop(prop, tier, seed, only=None):
@@ -97,7 +112,7 @@ def run_prop(prop, tier, seed, only=None):
     if prop == "C06":
         res.violations = [v for v in res.violations if not v["cls"].startswith("c07:")]
     else:
-        res.violations = [v for v in res.violations if v["cls"].startswith("c07:")]
+        res.violations = [v for v in res.violations if "c07:" in v["cls"]]
     # minimum-observation rule
     need = ["exact==max", "exact==max+1", "exact==max-1", "exact==lowest", "exact==lowest-1", "exact==lowest+1", "signalled+", "signalled-"]
     if not only:
